@@ -148,7 +148,9 @@ func (t *ControllableTask) Launch() error {
 				Error("failed to run task")
 
 			t.sendStatus(t.knownEnvironmentId, mesos.TASK_FAILED, err.Error())
-			_ = t.doTermIntKill(-taskCmd.Process.Pid)
+			if taskCmd.Process != nil { // nil when nothing was started (e.g. no such binary)
+				_ = t.doTermIntKill(-taskCmd.Process.Pid)
+			}
 			return
 		}
 		log.WithField("id", t.ti.TaskID.Value).
